@@ -223,3 +223,112 @@ def dft_terms(col, inverse=False, S=None):
             acc = (acc[0] / N, acc[1] / N)
         out.append(acc)
     return out
+
+
+def poly_of(e, var):
+    """Exact univariate polynomial {degree: Fraction} of a z3 real term built from +, -, *, numerals, division by numerals and `var`;
+    None if the term has any other structure."""
+    memo = {}
+
+    def mul(a, b):
+        out = {}
+        for i, x in a.items():
+            for j, y in b.items():
+                out[i + j] = out.get(i + j, 0) + x * y
+        return out
+
+    def go(t):
+        k = t.get_id()
+        if k in memo:
+            return memo[k]
+        r = go1(t)
+        memo[k] = r
+        return r
+
+    def go1(t):
+        if z3.is_rational_value(t) or z3.is_int_value(t):
+            return {0: Fraction(t.numerator_as_long(), t.denominator_as_long()) if z3.is_rational_value(t) else Fraction(t.as_long())}
+        if z3.eq(t, var):
+            return {1: Fraction(1)}
+        kind = t.decl().kind()
+        ch = t.children()
+        if kind == z3.Z3_OP_TO_REAL:
+            return go(ch[0])
+        if kind == z3.Z3_OP_ADD:
+            out = {}
+            for c in ch:
+                p = go(c)
+                if p is None:
+                    return None
+                for d, v in p.items():
+                    out[d] = out.get(d, 0) + v
+            return out
+        if kind == z3.Z3_OP_SUB:
+            ps = [go(c) for c in ch]
+            if any(p is None for p in ps):
+                return None
+            out = dict(ps[0])
+            for p in ps[1:]:
+                for d, v in p.items():
+                    out[d] = out.get(d, 0) - v
+            return out
+        if kind == z3.Z3_OP_UMINUS:
+            p = go(ch[0])
+            return None if p is None else {d: -v for d, v in p.items()}
+        if kind == z3.Z3_OP_MUL:
+            out = {0: Fraction(1)}
+            for c in ch:
+                p = go(c)
+                if p is None:
+                    return None
+                out = mul(out, p)
+            return out
+        if kind == z3.Z3_OP_DIV:
+            a, b = go(ch[0]), go(ch[1])
+            if a is None or b is None or set(b) - {0} and any(b[d] for d in b if d):
+                return None
+            if not b.get(0):
+                return None
+            return {d: v / b[0] for d, v in a.items()}
+        if kind == z3.Z3_OP_POWER:
+            a, b = go(ch[0]), go(ch[1])
+            if a is None or b is None or set(k for k, v in b.items() if v) - {0}:
+                return None
+            n = b.get(0, 0)
+            if n != int(n) or n < 0:
+                return None
+            out = {0: Fraction(1)}
+            for _ in range(int(n)):
+                out = mul(out, a)
+            return out
+        return None
+    return go(z3.simplify(e))
+
+
+def poly_compose_affine(p, a, b):
+    """p(a + b*y) as {degree: Fraction} in y"""
+    out = {}
+    base = {0: Fraction(1)}
+    lin = {0: Fraction(a), 1: Fraction(b)}
+    cur = dict(base)
+    maxd = max(p) if p else 0
+    pw = {0: {0: Fraction(1)}}
+    for d in range(1, maxd + 1):
+        prev = pw[d - 1]
+        nxt = {}
+        for i, x in prev.items():
+            for j, y in lin.items():
+                nxt[i + j] = nxt.get(i + j, 0) + x * y
+        pw[d] = nxt
+    for d, c in p.items():
+        for i, x in pw[d].items():
+            out[i] = out.get(i, 0) + c * x
+    return out
+
+
+def poly_term(p, y):
+    """Horner z3 term of {degree: Fraction} at z3 term y"""
+    acc = z3.RealVal(0)
+    for d in range(max(p) if p else 0, -1, -1):
+        acc = acc * y + RV(Fraction(p.get(d, 0)))
+    return acc
